@@ -35,8 +35,8 @@ ASSUMPTIONS = [
     "samples): at the 64-slot minimum only ~15 independent noise samples per level enter the estimate, and a "
     "thorough run met a realisation (1 in ~40 000) whose local spread was just below sigma/2",
     "'midway within one resampled step' = |t_opt - (t_left+t_right)/2| <= 1/sps_resamp (+1e-9)",
-    "equivariance tolerance 1e-6 relative to alpha*(b-a); beta is kept within +-10*alpha*(b-a) so that float "
-    "cancellation stays far below that tolerance",
+    "equivariance tolerance 1e-6 relative to alpha*(b-a) plus 4e-13*|beta| (float64 resolution of the pedestal); beta up "
+    "to 1e6 eye heights",
     "each op is one waveform case; the number of GET_EYE calls per op is 2*K",
 ]
 N_RUNS = {"quick": 800, "thorough": 16000}
@@ -51,7 +51,7 @@ def tasks(tier, master):
 def generate(seed, tier):
     rng = random.Random(seed)
     ops = []
-    n_cases = 1 if tier == "quick" else rng.choice([1, 2])
+    n_cases = rng.choice([1, 1, 2, 3]) if tier == "quick" else rng.choice([1, 2, 3])
     for _ in range(n_cases):
         if rng.random() < 0.4:
             ops.append({"op": "reseed", "s": rng.getrandbits(31)})
@@ -78,7 +78,8 @@ def generate(seed, tier):
                     "a": a, "swing": swing, "bwf": rng.uniform(0.7, 1.0), "sigma": rng.uniform(0.005, 0.05),
                     "nseed": rng.getrandbits(31), "form": rng.choice(["es_noise", "es", "arr", "es_noise", "es_c", "arr_c"]),
                     "seeds": [rng.getrandbits(31) for _ in range(2 if tier == "quick" else 3)],
-                    "alpha": alpha, "beta": rng.choice([0.0, rng.uniform(-10, 10) * alpha * swing])})
+                    "alpha": alpha, "beta": rng.choice([0.0, rng.uniform(-10, 10) * alpha * swing,
+                                                         rng.choice([-1, 1]) * 10 ** rng.uniform(2, 6) * alpha * swing])})
     return {}, ops
 
 
@@ -149,6 +150,22 @@ class Bench:
         self.rec.fault("rng_reseed")
         return op["s"]
 
+    def _container(self, clean, noise, form):
+        if form == "es_noise":
+            return self.E(clean.copy(), noise.copy())
+        if form == "es_c":
+            return self.E(clean.astype(complex), noise.astype(complex))
+        if form == "arr_c":
+            return (clean + noise).astype(complex)
+        if form == "es":
+            return self.E(clean + noise)
+        return (clean + noise).copy()
+
+    def _estimate_obj(self, arg, seed):
+        np.random.seed(seed)
+        with seams.stdout_tap():
+            return self.GET_EYE(arg, sps_resamp=128)
+
     def _estimate(self, clean, noise, form, seed):
         if form == "es_noise":
             arg = self.E(clean.copy(), noise.copy())
@@ -180,9 +197,10 @@ class Bench:
                 f"{op['form']})")
         fields = ("mu0", "mu1", "s0", "s1", "threshold", "t_left", "t_right", "t_opt", "i")
         digs = []
+        record = self._container(clean, noise, op["form"])      # the same object is analysed under every seed
         for k, seed in enumerate(op["seeds"]):
             try:
-                e = self._estimate(clean, noise, op["form"], seed)
+                e = self._estimate_obj(record, seed)
             except Exception as ex:
                 raise Violation("C17/finite", f"{what} seed {seed}: raised {type(ex).__name__}: {ex}", "raise")
             v = {f: getattr(e, f, None) for f in fields}
@@ -236,7 +254,7 @@ class Bench:
                 raise Violation("C17/equivariance", f"{w}: the rescaled twin (alpha={alpha:.4g}, beta={beta:.4g}) raised "
                                                     f"{type(ex).__name__}: {ex}", "equiv/raise")
             v2 = {f: getattr(e2, f, None) for f in fields}
-            tol = 1e-6 * alpha * swing
+            tol = 1e-6 * alpha * swing + 4e-13 * abs(beta)      # float64 resolution of a large pedestal
             bad = []
             for f in ("mu0", "mu1", "threshold"):
                 if v2[f] is None or not np.isfinite(float(v2[f])) or abs(v2[f] - (alpha * v[f] + beta)) > tol:
